@@ -36,7 +36,7 @@ def validity_cases(tier, rnd):
                 pts.add(b + d)
     pts |= {0x41, 0x5F, 0xE9, 0x3A3, 0x20AC, 0xFFFD, 0x1D11E, 0x10FFFD, 0xA0, 0x85, 0x2028, 0x3000, 0xAD, 0x200B}
     if tier != "quick":
-        pts |= set(rnd.sample(range(1, 0x110000), 20000))
+        pts |= set(rnd.sample(range(1, 0x110000), 2500))
     cases = []
     for cp in sorted(pts):
         ch = chr(cp)
@@ -210,5 +210,5 @@ def c09(tier, replay=None):
     log("[C09] validity cases %d, pairs %d (equivalent %d), breaches %d" % (len(vcases), len(pairs), sum(1 for r in recs if r["t"] == "pair" and r["feq"]), nb))
     return rep.finish({"states": st["distinct"], "transitions": st["generated"], "traces_validated_against_impl": len(recs) - nb, "validity_cases": len(vcases), "pairs": len(pairs),
                        "equivalent_pairs": sum(1 for r in recs if r["t"] == "pair" and r["feq"]), "exhaustive": False,
-                       "explanation": "validity: every class boundary of the code space +-2 (thorough: 20000 further code points) at first / middle / last position in 8 uses, plus length and structure limits; matching: curated hard cases (sharp s, dotted I, final sigma, ypogegrammeni, Hangul, singletons, reordered marks, ligatures) against each other and random characters of established scripts against their case / normalisation variants; every observation judged by TLC"},
+                       "explanation": "validity: every class boundary of the code space +-2 (thorough: 2500 further code points) at first / middle / last position in 8 uses, plus length and structure limits; matching: curated hard cases (sharp s, dotted I, final sigma, ypogegrammeni, Hangul, singletons, reordered marks, ligatures) against each other and random characters of established scripts against their case / normalisation variants; every observation judged by TLC"},
                       ["Unicode algorithm oracle: Python unicodedata (Unicode %s); characters are drawn from scripts stable across Unicode versions" % unicodedata.unidata_version])
